@@ -238,7 +238,7 @@ SPACE_FN = {"box": box_cases, "tri": tri_cases, "misc": misc_cases}
 
 
 def blocks(tier):
-    out = []
+    out = [{"sp": "longlist", "tier": tier}]
     for sp in ("box", "tri", "misc"):
         n = SHARDS[tier][sp]
         out += [{"sp": sp, "tier": tier, "shard": i, "of": n} for i in range(n)]
@@ -407,6 +407,8 @@ def _values_of(mode, n, LIST_VALUES, SCALAR_VALUE):
         # interleaved repeat a, b, a, ...: burning geometries grouped by value would lose the overwrite order
         vals = [LIST_VALUES[i % 2] for i in range(n)]
         return vals, vals
+    if mode == "longhole":
+        return [], []  # replaced by the caller
     if mode == "hole":
         return LIST_VALUES[:n], LIST_VALUES[:n]  # replaced by the caller, which knows the fill value
     if mode == "short":
@@ -456,6 +458,10 @@ def run_case(case, singles=None):
     if opts:
         fill, dtype = opts["fill"], opts["dtype"]
         arg, vals = values_of(opts["values"], n, dtype)
+        if opts["values"] == "longhole":
+            # long lists: the four list values in turn, every second geometry burning the FILL value
+            vals = [fill if i % 2 else LIST_VALUES[(i // 2) % len(LIST_VALUES)] for i in range(n)]
+            arg = list(vals)
         if opts["values"] == "hole":
             # every second geometry burns the FILL value (punching a hole into what earlier geometries marked)
             vals = [fill if i % 2 else v for i, v in enumerate(values_of("list", n, dtype)[1])]
@@ -614,8 +620,24 @@ def run_case(case, singles=None):
     return out
 
 
+def long_list_cases():
+    """Lists of 63 .. 130 geometries (the 10-member pool of a 3 x 3 template over and over, each time in another rotation)."""
+    P = pool(3, 3)
+    for n in (63, 64, 65, 70, 130):
+        geoms = [P[(i * 7 + i // 10) % len(P)] for i in range(n)]
+        for order in ORDERS:
+            for fill in (0, -1):
+                yield {"sp": "list", "t": [3, 3, order, "A"], "g": geoms,
+                       "o": {"values": "longhole", "fill": fill, "dtype": "float32", "contents": "g1"}}
+
+
 def run_block(block, rec):
     sp = block["sp"]
+    if sp == "longlist":
+        singles = {}
+        for case in long_list_cases():
+            rec.add(run_case(case, singles))
+        return
     if sp == "list":
         singles = {}
         last_t = None
